@@ -87,6 +87,12 @@ type pmStream struct {
 	attrTotal   int
 	unknownRd   bool // lastRead is of an unregistered type
 	simulHigher bool // lastRead was read in the same step as a response from a higher-priority server
+	// closeNack: an acceptable response was answered with a well-formed NACK.  That is
+	// what the client does when the response arrives while it is closing the channel
+	// ("xdsChannel is closed"); the statement does not say which responses are accepted,
+	// so it is a violation only if the client does not close this transport before the
+	// next quiescent point.
+	closeNack string
 }
 
 type pmRead struct {
@@ -229,6 +235,12 @@ func (m *ProtoModel) one(e Event) {
 	case EvTrClose:
 		if t := m.tr[e.Tr]; t != nil {
 			t.closed = true
+			for _, st := range m.st {
+				if st.tr == t && st.closeNack != "" {
+					st.closeNack = ""
+					m.Stats["nacks_while_channel_closing_tolerated"]++
+				}
+			}
 			if m.openTr[t.server] == e.Tr {
 				delete(m.openTr, t.server)
 			}
@@ -386,6 +398,13 @@ func (m *ProtoModel) send(e Event) {
 	p := s.pend[r.TypeURL]
 	if p != nil && r.Nonce == p.nonce && r.Nonce != s.nonce[r.TypeURL] {
 		// the ACK or NACK of the response just read
+		if p.accepted && r.HasError && r.ErrMsg != "" && r.Version == curVer && s.closeNack == "" {
+			// a well-formed NACK (previously accepted version, this nonce, error detail)
+			// of a response the reference would accept: judged at tr-close / quiescence
+			m.Stats["nacks_of_acceptable_response_deferred"]++
+			s.closeNack = fmt.Sprintf("stream %d type %s: response (version %q nonce %q) has only valid resources but was NACKed with error_detail %q, and the client did not close the channel", s.id, short, p.version, p.nonce, r.ErrMsg)
+			p.accepted = false
+		}
 		want := curVer
 		if p.accepted {
 			want = p.version
@@ -488,6 +507,19 @@ func (m *ProtoModel) quiescent() {
 		return
 	}
 	m.Stats["quiescent_checks"]++
+	{
+		var ids []int
+		for id, st := range m.st {
+			if st.closeNack != "" {
+				ids = append(ids, id)
+			}
+		}
+		sort.Ints(ids)
+		for _, id := range ids {
+			m.fail("ack-with-error-detail", "%s", m.st[id].closeNack)
+			m.st[id].closeNack = ""
+		}
+	}
 	for _, rd := range m.reads {
 		if rd.stream.lastReadK != rd.k {
 			continue
